@@ -2133,8 +2133,18 @@ class CodeGenerator(NodeVisitor):
         old_ctx_name = self.temporary_identifier()
         saved_ctx = frame.eval_ctx.save()
         self.writeline(f"{old_ctx_name} = context.eval_ctx.save()")
+        # Restore the eval context on every way out of the scope (continue,
+        # break, an exception), not only when the body runs to its end. The
+        # context of an imported template's macros outlives the render.
+        self.writeline("try:")
+        self.indent()
+        self.writeline("pass")
         self.visit_EvalContextModifier(node, frame)
         for child in node.body:
             self.visit(child, frame)
+        self.outdent()
         frame.eval_ctx.revert(saved_ctx)
+        self.writeline("finally:")
+        self.indent()
         self.writeline(f"context.eval_ctx.revert({old_ctx_name})")
+        self.outdent()
